@@ -421,14 +421,14 @@ def _filter_through(c, which):
         c.prove("tentative-removed", "x" not in frk.fields["captures"])
 
 
-@unit("trigger-filter", ["C12", "C02"], [I + ":BaseAccumulator.trigger", I + ":BaseAccumulator._call_with_snapshot", I + ":BaseAccumulator.build",
+@unit("trigger-filter", ["C12", "C02", "C03", "C07", "C11", "C13"], [I + ":BaseAccumulator.trigger", I + ":BaseAccumulator._call_with_snapshot", I + ":BaseAccumulator.build",
                                  I + ":BaseAccumulator.fork", I + ":Capture.snapshot", I + ":BaseAccumulator.__check"])
 def u_trigger_filter(c):
     """Event delivery goes through the capture check: the trigger handler runs iff check_captures(snapshot) holds."""
     _filter_through(c, "trigger")
 
 
-@unit("intercept-filter", ["C12", "C04", "C16", "C07"], [I + ":BaseAccumulator.intercept", I + ":BaseAccumulator._call_with_snapshot",
+@unit("intercept-filter", ["C12", "C04", "C16", "C07", "C02", "C11", "C13"], [I + ":BaseAccumulator.intercept", I + ":BaseAccumulator._call_with_snapshot",
                                           I + ":BaseAccumulator.build", I + ":BaseAccumulator.fork", I + ":Capture.snapshot", I + ":Capture.set"])
 def u_intercept_filter(c):
     """An override attached to a constrained selector is applied under the same condition and not otherwise."""
